@@ -80,6 +80,39 @@ func runC20(p *P, r *R) {
 	r.ob("R20.1", "fillDataToReadBuffer: the goroutine is registered in the wait group before it is spawned", p.ipos(spawn), wgAdd, true, "close() waits on this group")
 	// readers are notified in any case
 	arrivalWakesReaders(p, r, "R20.1")
+	// R20.7 the in-process flag serialises OnData: outside the callback goroutine it is cleared only where no goroutine
+	// can be running — on the path on which no callbacks were installed yet
+	{
+		isCbVal := func(v ssa.Value) bool {
+			c, ok := v.(*ssa.Call)
+			return ok && p.calleeName(&c.Call) == "(*Stream).getCallbacks"
+		}
+		n7 := 0
+		for _, f := range p.fnList {
+			if f == body || (f.Parent() != nil && f.Parent() == fd) {
+				continue
+			}
+			allInstrs(f, func(in ssa.Instruction) {
+				a := p.atomicOp(in)
+				if a == nil || a.Op != "Store" || a.Word != "Stream.callbackInProcess" {
+					return
+				}
+				if _, isCall := in.(*ssa.Call); !isCall {
+					return
+				}
+				n7++
+				ok := false
+				for _, fct := range factsAt(in.Block()) {
+					if relOn(fct.Cond, fct.Truth, isCbVal, isNilConst) == "==" {
+						ok = true
+					}
+				}
+				r.ob("R20.7", p.fname(f)+": the in-process flag is cleared outside the callback goroutine only while no callbacks are installed", p.ipos(in), ok, true,
+					"clearing it under a running OnData lets the next arrival start a second callback goroutine")
+			})
+		}
+		r.count("R20.7", "clears of callbackInProcess outside the callback goroutine", n7, 1)
+	}
 
 	// ---- R20.2 inside the closure
 	clears := findInstrs(body, M{ID: "clear", F: func(in ssa.Instruction) bool {
